@@ -8,7 +8,7 @@
    Model/CollectorOk.v. *)
 From Coq Require Import ZArith NArith List Bool.
 From FV.Model Require Import Bytes Bson Metrics Codec Collector Wf RoundTrip CollectorOk.
-From FV.Proofs Require Import CollectorProofs.
+From FV.Proofs Require Import CollectorProofs SigInjective.
 Import ListNotations.
 Open Scope Z_scope.
 
@@ -42,7 +42,28 @@ Proof. exact (c08_dynamic deflate inflate inflate_deflate). Qed.
 Theorem C08_no_mixing : forall k n ops, unmixed (fst (c07_reach deflate k n ops)).
 Proof. exact (c08_no_mixing deflate). Qed.
 
+(* the same without the [distinguishable] assumption: for the schema-aware kinds it
+   is a theorem ([C08_signature_injective] below), so representable documents and
+   no change of value types alone suffice, whatever the schemas *)
+Theorem C08_dynamic_all_schemas : forall k n docs nows,
+  k = KDyn \/ k = KSDyn -> 1 <= n < 2 ^ 31 -> length nows = length docs ->
+  Forall doc_wf docs -> no_type_only_change k docs ->
+  let res := emit deflate k n docs nows in
+  snd res = map (fun _ => BAdd ROk) docs ++ [BFlush true] /\
+  exists d, decode_ftdc inflate None (emitted (snd (fst res))) = Some d /\ c08_ok n docs true d = true.
+Proof. exact (c08_dynamic_all_schemas deflate inflate inflate_deflate). Qed.
+
 End C08.
+
+(* the key string of the schema signature (the bytes fed to FNV, bson_hash.go) is an
+   unambiguous framing: representable documents with one key string and the same
+   metric types have one skeleton (same tree, same keys, same leaf types) *)
+Theorem C08_signature_injective : forall a b,
+  doc_ok a = true -> doc_ok b = true ->
+  fst (schema_sig a) = fst (schema_sig b) ->
+  map fst (flatten_doc a) = map fst (flatten_doc b) ->
+  skeleton_doc a = skeleton_doc b.
+Proof. exact sig_injective. Qed.
 
 (* a successful Add into a non-empty chunk: the document has the metric count and
    metric types of the chunk's reference document *)
@@ -77,6 +98,8 @@ Print Assumptions C08_no_mixing.
 Print Assumptions C08_add_same_types.
 Print Assumptions C08_add_refused.
 Print Assumptions C08_dyn_count_refuted.
+Print Assumptions C08_dynamic_all_schemas.
+Print Assumptions C08_signature_injective.
 
 (* non-vacuity: A,B,B,A,A,A,C over three schemas (returning to an earlier one,
    a run longer than the chunk size) satisfies the hypotheses for both kinds; the
